@@ -182,6 +182,12 @@ def crate_inliner(bods):
         by_last.setdefault(re.sub(r"#\d+$", "", name).rsplit("::", 1)[-1], []).append(b)
 
     def resolve(callee, argvals):
+        mi = re.match(r"^<(.+) as Into<(.+)>>::into$", callee)
+        if mi:
+            src, dst = mi.group(1).strip(), mi.group(2).strip().split("::")[-1]
+            cands = [b for b in by_last.get("from", []) if len(b.params) == 1 and b.params[0][1].strip() == src and re.search(r"-> (\w+::)*" + re.escape(dst) + r"\b", b.header)]
+            if len(cands) == 1:
+                return cands[0]
         c = strip_generics(callee)
         m = re.match(r"^(?:<(.+?) as .+?>|(.+?))::([A-Za-z_][A-Za-z0-9_]*)$", c)
         if m:
